@@ -55,7 +55,12 @@ type fromItemsKeyTypeError struct {
 }
 
 func (err *fromItemsKeyTypeError) Error() string {
-	return "array passed to from_items contains an item with a key of type " + err.key.String()
+	t := "nil"
+	if err.key != nil {
+		t = err.key.String()
+	}
+
+	return "array passed to from_items contains an item with a key of type " + t
 }
 
 func (err *fromItemsKeyTypeError) Is(target error) bool {
@@ -127,11 +132,13 @@ type unexpectedOperationError struct {
 }
 
 func (err *unexpectedOperationError) Error() string {
-	var name string
-	if err.op.Kind() == reflect.Pointer {
-		name = err.op.Elem().Name()
-	} else {
-		name = err.op.Name()
+	name := "nil"
+	if err.op != nil {
+		if err.op.Kind() == reflect.Pointer {
+			name = err.op.Elem().Name()
+		} else {
+			name = err.op.Name()
+		}
 	}
 
 	return "unexpected operation " + name + " while evaluating expression"
